@@ -156,12 +156,28 @@ def ensure(flavour, progs=("vdrive",), verbose=True):
                  if o not in want and not os.path.basename(o).startswith("h_")]
         for o in stale:
             os.unlink(o)
-        if ncomp or stale or not os.path.exists(lib):
+        # identity of the library = the keys of all its units; every executable remembers the identity it was linked against, so a program that was
+        # not asked for while the library changed (vthreads, vfuzz) is relinked the next time it is (it used to keep running the old code)
+        hl = hashlib.sha256()
+        for o in sorted(objs):
+            try:
+                hl.update(open(o[:-2] + ".key").read().encode())
+            except OSError:
+                hl.update(b"?")
+        libid = hl.hexdigest()
+        libid_file = lib + ".id"
+        try:
+            have_id = open(libid_file).read()
+        except OSError:
+            have_id = None
+        if ncomp or stale or not os.path.exists(lib) or have_id != libid:
             if os.path.exists(lib):
                 os.unlink(lib)
             r = subprocess.run(["ar", "rcs", lib] + sorted(objs), capture_output=True, text=True)
             if r.returncode:
                 raise BuildError("ar failed: " + r.stderr)
+            with open(libid_file, "w") as f:
+                f.write(libid)
         bins = {}
         hdir = os.path.join(VERIF, "harness")
         for p in progs:
@@ -170,12 +186,18 @@ def ensure(flavour, progs=("vdrive",), verbose=True):
                                      ["-std=gnu++14"] + fl["flags"] + DEFINES + inc + ["-I" + hdir],
                                      name="h_" + p)
             exe = os.path.join(bdir, p)
-            if did or ncomp or stale or not os.path.exists(exe):
+            try:
+                linked_against = open(exe + ".libid").read()
+            except OSError:
+                linked_against = None
+            if did or ncomp or stale or not os.path.exists(exe) or linked_against != libid:
                 wraps = ["-Wl,--wrap=exit", "-Wl,--wrap=_exit", "-Wl,--wrap=abort"] if p != "vfuzz" else []
                 cmd = [fl["cxx"]] + fl["ld"] + wraps + ["-o", exe, hobj, lib, "-lpthread", "-ldl", "-rdynamic"]
                 r = subprocess.run(cmd, capture_output=True, text=True)
                 if r.returncode:
                     raise BuildError("link failed: %s\n%s" % (" ".join(cmd), r.stderr[-4000:]))
+                with open(exe + ".libid", "w") as f:
+                    f.write(libid)
             bins[p] = exe
         if verbose:
             sys.stderr.write("[build] %s: %d/%d units compiled, %.1fs (%s)\n"
